@@ -403,7 +403,7 @@ def c16_server(tier):
 
 # ---- C17 --------------------------------------------------------------------------------------
 
-READER_TRACE = ("WSReaderTrace.tla", "WSReaderTrace.cfg")
+READER_TRACE = ("WSBoundaryTrace.tla", "WSBoundaryTrace.cfg")
 
 
 def rframe(f, side):
